@@ -220,4 +220,45 @@ theorem expected_complete_stack {states : List Nat} {af af' : Nat} {ex : List Te
 
 end
 
+/-! ### "no reduction under the offending lookahead" -/
+
+theorem step_pull_states (T : Tables) (af : Nat) (failAt : Option Nat) (startLoc : Int) (c : Cfg) :
+    (step T af failAt startLoc c .pull).1.states = c.states := by
+  have hs := step_spec T af failAt startLoc c .pull
+  rcases hs.io_cases with ⟨_, hp, _⟩ | ⟨_, _, h, _⟩
+  · have := (step_pull_pulled T af failAt startLoc c).1
+    omega
+  · exact h
+
+/-- if the syntax error is raised in the step right after the pull of the offending item (or by
+    that pull itself) — no reduction was performed under the offending lookahead — the state stack
+    at the error is the one the parser had when it pulled -/
+theorem states_of_error_after_pull {T : Tables} (hrec : T.usesRecovery = false) {af : Nat}
+    {failAt : Option Nat} {startLoc : Int} {input : List Item} {n₀ : Nat} {c₀ c : Cfg} {e : PErr}
+    {ex : List Term}
+    (h₀ : run T af failAt startLoc n₀ (init startLoc input) .pull = (c₀, .pull))
+    (h₂ : run T af failAt startLoc (n₀ + 2) (init startLoc input) .pull = (c, .done (.err e)))
+    (he : errExpected e = some ex) : c.states = c₀.states := by
+  rcases h₁ : run T af failAt startLoc (n₀ + 1) (init startLoc input) .pull with ⟨c₁, ph₁⟩
+  have hs₁ : step T af failAt startLoc c₀ .pull = (c₁, ph₁) := by
+    rw [Generic.run_succ', h₀] at h₁; exact h₁
+  have hs₂ : step T af failAt startLoc c₁ ph₁ = (c, .done (.err e)) := by
+    rw [show n₀ + 2 = (n₀ + 1) + 1 from rfl, Generic.run_succ', h₁] at h₂; exact h₂
+  have hst : c₁.states = c₀.states := by
+    have := step_pull_states T af failAt startLoc c₀
+    rw [hs₁] at this; exact this
+  cases hd : phDone ph₁ with
+  | false =>
+    have hpl : isPlain ph₁ = true := by
+      have := step_plain T af failAt startLoc hrec c₀ .pull rfl
+      rw [hs₁] at this; exact this
+    rw [(step_err_stack (step_spec_of hs₂) hpl hd he).1, hst]
+  | true =>
+    cases ph₁ with
+    | done r =>
+      simp only [step_done, Prod.mk.injEq, Phase.done.injEq] at hs₂
+      obtain ⟨rfl, rfl⟩ := hs₂
+      exact (step_err_stack (step_spec_of hs₁) rfl rfl he).1
+    | _ => simp [phDone] at hd
+
 end LalrpopModel.LR
